@@ -6,7 +6,7 @@ Creates concrete `Signal`s and `BundleInstance`s to replace `PortRef`s.
 
 # Std-Lib Imports
 import copy
-from typing import Union, List, Optional, Dict
+from typing import Union, List, Optional, Dict, Tuple
 
 # Local imports
 from ...connect import Connectable
@@ -25,6 +25,7 @@ from ...slice import Slice
 from ...concat import Concat
 from ...noconn import NoConn
 from ..helpers.resolve_ref_types import update_ref_deps
+from ..helpers.width import width
 
 # Import the base class
 from .base import ElabPass
@@ -125,21 +126,39 @@ class ResolvePortRefs(ElabPass):
             groups.append(group)
 
         # For each group, find and/or create a Signal to replace all the PortRefs with.
-        for group in groups:
-            self.handle_group(module, group)
+        sources = [self.handle_group(module, group) for group in groups]
+        sources = [s for s in sources if s is not None]
+
+        # A source which is a Slice or a Concat can in turn mention `PortRef`s, of other groups or of its own.
+        # Replacing each `PortRef` by its source would then tie these sources into a loop, which no later pass could unfold.
+        # Such sources are exchanged for the Signal bits they stand for before anything is replaced.
+        self.untie_source_loops(module, sources)
+
+        # Resolve each PortRef with its group's source as its referent,
+        # and reconnect it everywhere it's connected.
+        for group_port_refs, source in sources:
+            for portref in group_port_refs:
+                resolve_portref(portref, source)
 
         return module
 
-    def handle_group(self, module: Module, group: List[Connectable]) -> None:
-        """Handle a `group` worth of connected Ports and NoConns"""
+    def handle_group(
+        self, module: Module, group: List[Connectable]
+    ) -> Optional[Tuple[List[PortRef], Source]]:
+        """Handle a `group` worth of connected Ports and NoConns.
+        Returns the `PortRef`s of the group and the source to replace them with,
+        or `None` for a `NoConn` group, which is replaced on the spot."""
 
         # First cover `NoConn` connections, checking for any invalid multiple-conns to them.
         if any([isinstance(n, NoConn) for n in group]):
-            return self.handle_noconn(module, group)
+            self.handle_noconn(module, group)
+            return None
         return self.handle_portconn(module, group)
 
-    def handle_portconn(self, module: Module, group: List[Connectable]):
-        """Handle re-connecting a list of connected `PortRef`s.
+    def handle_portconn(
+        self, module: Module, group: List[Connectable]
+    ) -> Tuple[List[PortRef], Source]:
+        """Find the source to re-connect a list of connected `PortRef`s to.
         Creates and adds a fresh new `Signal` if one does not already exist."""
 
         group_port_refs = [x for x in group if isinstance(x, PortRef)]
@@ -149,11 +168,90 @@ class ResolvePortRefs(ElabPass):
         source: Optional[Source] = self.find_source(group)
         if source is None:
             source = self.create_source(module, group_port_refs)
+        return group_port_refs, source
 
-        # Resolve each PortRef with `source` as its referent,
-        # and reconnect it everywhere it's connected.
-        for portref in group_port_refs:
-            resolve_portref(portref, source)
+    def untie_source_loops(
+        self, module: Module, sources: List[Tuple[List[PortRef], Source]]
+    ) -> None:
+        """Exchange every source from which a loop of sources can be reached for a `Concat` of the Signal bits it stands for.
+
+        Sources depend on one another through the `PortRef`s inside their Slices and Concats, e.g.
+        ```
+        i1 = W(a=h.Concat(i2.a[0], s))
+        i2 = W(a=h.Concat(i1.a[0], s))
+        ```
+        Bit by bit such a loop still has a meaning: each bit either arrives at a bit of a Signal (here `s`, for bit 1 of both ports),
+        or goes round forever (bit 0 of both ports), in which case the bits on its way are a net of their own.
+        They get a bit of an implicit Signal, created as for a group of `PortRef`s that has no Signal at all."""
+        from .slices import _slice_indices
+
+        source_of = {p: k for k, (prefs, _) in enumerate(sources) for p in prefs}
+
+        def made_of(conn: Connectable) -> List[Connectable]:
+            if isinstance(conn, PortRef):
+                return [sources[source_of[conn]][1]] if conn in source_of else []
+            if isinstance(conn, Slice):
+                return [conn.parent]
+            if isinstance(conn, Concat):
+                return list(conn.parts)
+            return []
+
+        reaches: Dict[int, Optional[bool]] = dict()  # `None` while being visited
+
+        def reaches_loop(conn: Connectable) -> bool:
+            if id(conn) in reaches:
+                return reaches[id(conn)] is not False
+            reaches[id(conn)] = None
+            found = False
+            for part in made_of(conn):
+                found = reaches_loop(part) or found
+            reaches[id(conn)] = found
+            return found
+
+        bits: Dict[Tuple[int, int], Tuple[Signal, int]] = dict()
+
+        implicit: Dict[int, Signal] = dict()  # The implicit Signals, per group, of the bits that go round
+
+        def bit(conn: Connectable, idx: int, trail: List, start: Tuple[int, int]) -> Tuple[Signal, int]:
+            """The Signal bit which bit `idx` of `conn` stands for.
+            `start` is where the search began: bit `start[1]` of the source of group `start[0]`."""
+            if isinstance(conn, Signal):
+                return (conn, idx)
+            key = (id(conn), idx)
+            if key in bits:
+                return bits[key]
+            if key in trail:
+                # Went round: the bits on the trail are a net of their own
+                if start[0] not in implicit:
+                    implicit[start[0]] = self.create_source(module, sources[start[0]][0])
+                return (implicit[start[0]], start[1])
+            trail.append(key)
+            if isinstance(conn, PortRef):
+                rv = bit(sources[source_of[conn]][1], idx, trail, start)
+            elif isinstance(conn, Slice):
+                rv = bit(conn.parent, _slice_indices(conn)[idx], trail, start)
+            elif isinstance(conn, Concat):
+                for part in conn.parts:
+                    if idx < width(part):
+                        break
+                    idx -= width(part)
+                rv = bit(part, idx, trail, start)
+            else:
+                self.fail(f"Invalid connection {conn} in a loop of Port references")
+            trail.pop()
+            bits[key] = rv
+            return rv
+
+        untied: Dict[int, Source] = dict()
+        for k, (prefs, source) in enumerate(sources):
+            if isinstance(source, (Slice, Concat)) and reaches_loop(source):
+                parts = []
+                for idx in range(width(source)):
+                    sig, sigidx = bit(source, idx, [], (k, idx))
+                    parts.append(sig if sig.width == 1 else sig[sigidx])
+                untied[k] = parts[0] if len(parts) == 1 else Concat(*parts)
+        for k, source in untied.items():
+            sources[k] = (sources[k][0], source)
 
     def find_source(self, group: List[Connectable]) -> Optional[Source]:
         """Find any existing, declared `Source` connected to `group`.
